@@ -51,6 +51,16 @@ def sheetName (q : String) : String :=
   | some u => expanded u (localOf q)
   | none => q
 
+/-- expanded name of a literal result element / of one of its attributes: as `sheetName`, with the namespace URI
+replaced as `xsl:namespace-alias` says (§7.1.1) -/
+def lreName (al : List (String × String)) (q : String) : String :=
+  match stylesheetNs.lookup (prefixOf q) with
+  | some u => expanded ((al.lookup u).getD u) (localOf q)
+  | none => q
+
+theorem lreName_nil (q : String) : lreName [] q = sheetName q := by
+  simp only [lreName, sheetName, List.lookup_nil, Option.getD_none]
+
 structure Doc where
   nodes : Array SNode
 deriving Inhabited
@@ -162,13 +172,22 @@ structure KeyDecl where
   use : Expr
 deriving Inhabited
 
-structure Ctx where
+/-- the XPath evaluation context (XPath §1 + the XSLT additions an expression can see) -/
+structure XCtx where
   keys : List KeyDecl := []         -- the stylesheet's key declarations (static)
   node : Nat := 0
   pos : Nat := 1
   size : Nat := 1
   cur : Nat := 0                    -- the XSLT current node (`current()`), unchanged inside predicates
   vars : List (String × Val) := []
+deriving Inhabited
+
+/-- depth fuel every expression / pattern evaluation gets, independent of how deep the instantiation is (so that an
+expression has one value, not one per call depth) -/
+def evalFuel : Nat := 1000
+
+/-- the instantiation context: the XPath context plus what only instructions see -/
+structure Ctx extends XCtx where
   passed : List (String × Val) := []
   mode : Option String := none
   /-- import precedence of the current template rule (§5.6); `none` = no current template rule (inside xsl:for-each) -/
@@ -415,7 +434,7 @@ def substringNum (s : String) (start : Num) (len : Option Num) : String :=
 /-! ### evaluation (depth fuel) -/
 
 mutual
-def eval (d : Doc) : Nat → Expr → Ctx → Option Val
+def eval (d : Doc) : Nat → Expr → XCtx → Option Val
   | 0, _, _ => none
   | f+1, e, c =>
     match e with
@@ -471,33 +490,35 @@ def eval (d : Doc) : Nat → Expr → Ctx → Option Val
 
 /-- `key(name, value)` (§12.2): the nodes of the document that match the key's pattern and for which the
 `use` expression, evaluated at the node, yields (a node with) one of the requested string values -/
-def evalKey (d : Doc) : Nat → List Val → Ctx → Option Val
+def evalKey (d : Doc) : Nat → List Val → XCtx → Option Val
   | 0, _, _ => none
   | f+1, vs, c =>
     match vs with
     | [nameV, valV] =>
-      match c.keys.find? (·.name = toStr d nameV) with
-      | none => none
-      | some decl =>
+      -- all declarations of the name contribute (§12.2: a key may have several xsl:key elements, in any module)
+      match c.keys.filter (·.name = toStr d nameV) with
+      | [] => none
+      | decls =>
         let wanted : List String := match valV with
           | .ns l => l.map d.stringValue
           | v => [toStr d v]
         do
         let hits ← d.ids.filterM fun n => do
-          let isMatch := decl.pats.any fun p => (n :: d.ancestors n).any fun a =>
-            match eval d f p { keys := c.keys, node := a, cur := a } with
-            | some (.ns l) => l.contains n
-            | _ => false
-          if !isMatch then pure false else do
-            let u ← eval d f decl.use { keys := c.keys, node := n, cur := n }
-            let have_ : List String := match u with
-              | .ns l => l.map d.stringValue
-              | v => [toStr d v]
-            pure (have_.any fun x => wanted.contains x)
+          decls.anyM fun decl => do
+            let isMatch := decl.pats.any fun p => (n :: d.ancestors n).any fun a =>
+              match eval d f p { keys := c.keys, node := a, cur := a } with
+              | some (.ns l) => l.contains n
+              | _ => false
+            if !isMatch then pure false else do
+              let u ← eval d f decl.use { keys := c.keys, node := n, cur := n }
+              let have_ : List String := match u with
+                | .ns l => l.map d.stringValue
+                | v => [toStr d v]
+              pure (have_.any fun x => wanted.contains x)
         some (.ns hits)
     | _ => none
 
-def evalArgs (d : Doc) : Nat → List Expr → Ctx → Option (List Val)
+def evalArgs (d : Doc) : Nat → List Expr → XCtx → Option (List Val)
   | 0, _, _ => none
   | _+1, [], _ => some []
   | f+1, a :: as, c => do
@@ -507,7 +528,7 @@ def evalArgs (d : Doc) : Nat → List Expr → Ctx → Option (List Val)
 
 /-- filter `cand` (document order) by each predicate in turn; proximity position counts along the
 axis direction -/
-def applyPreds (d : Doc) : Nat → List Expr → Bool → List Nat → Ctx → Option (List Nat)
+def applyPreds (d : Doc) : Nat → List Expr → Bool → List Nat → XCtx → Option (List Nat)
   | 0, _, _, _, _ => none
   | _+1, [], _, cand, _ => some cand
   | f+1, p :: ps, rev, cand, c => do
@@ -517,7 +538,7 @@ def applyPreds (d : Doc) : Nat → List Expr → Bool → List Nat → Ctx → O
     let kept' := if rev then kept.reverse else kept
     applyPreds d f ps rev kept' c
 
-def filterPos (d : Doc) : Nat → Expr → List Nat → Nat → Nat → Ctx → Option (List Nat)
+def filterPos (d : Doc) : Nat → Expr → List Nat → Nat → Nat → XCtx → Option (List Nat)
   | 0, _, _, _, _, _ => none
   | _+1, _, [], _, _, _ => some []
   | f+1, p, i :: rest, k, n, c => do
@@ -528,7 +549,7 @@ def filterPos (d : Doc) : Nat → Expr → List Nat → Nat → Nat → Ctx → 
     let tl ← filterPos d f p rest (k + 1) n c
     some (if keep then i :: tl else tl)
 
-def evalFn (d : Doc) (name : String) (vs : List Val) (c : Ctx) : Option Val :=
+def evalFn (d : Doc) (name : String) (vs : List Val) (c : XCtx) : Option Val :=
   match name, vs with
   | "position", [] => some (.num (.int c.pos))
   | "last", [] => some (.num (.int c.size))
@@ -587,6 +608,10 @@ inductive Instr
   | lre (name : String) (attrs : List (String × List AvtPart)) (body : List Instr)
   | element (name : List AvtPart) (body : List Instr)
   | attribute (name : List AvtPart) (nsEmpty : Bool) (body : List Instr)
+  /-- `xsl:element` / `xsl:attribute` with a `namespace` attribute value template (§7.1.2, §7.1.3): the expanded name
+  has the local part of `name` and the namespace the template evaluates to (none for the empty string) -/
+  | elementNs (name ns : List AvtPart) (body : List Instr)
+  | attributeNs (name ns : List AvtPart) (body : List Instr)
   | comment (body : List Instr)
   | pi (name : List AvtPart) (body : List Instr)
   | copy (body : List Instr)
@@ -635,6 +660,8 @@ structure Stylesheet where
   keys : List KeyDecl := []
   /-- `xsl:strip-space elements="…"` name tests ("*" or element names); no xsl:preserve-space in the subset -/
   stripSpace : List String := []
+  /-- `xsl:namespace-alias` (§7.1.1): stylesheet namespace URI ↦ result namespace URI -/
+  nsAlias : List (String × String) := []
 deriving Inhabited
 
 /-! ### result-tree construction (XSLT §7.1.3, §7.2): flat events, then `normalize` -/
@@ -693,28 +720,33 @@ def defaultPrio : Expr → Int
   | _ => 1
 
 /-- §5.2: a node matches a pattern iff some ancestor-or-self, taken as context, selects it -/
-def matchesPat (d : Doc) (fuel : Nat) (p : Expr) (n : Nat) : Bool :=
+def matchesPat (d : Doc) (fuel : Nat) (p : Expr) (n : Nat) (keys : List KeyDecl := []) : Bool :=
   (n :: d.ancestors n).any fun a =>
-    match eval d fuel p { node := a } with
+    match eval d fuel p { keys := keys, node := a, cur := a } with
     | some (.ns l) => l.contains n
     | _ => false
 
 /-- §5.5: highest priority wins; among equals the last in the stylesheet (the permitted recovery) -/
-def chooseTemplate (ss : Stylesheet) (d : Doc) (fuel : Nat) (n : Nat) (mode : Option String)
-    (below : Option (Nat × Nat) := none) : Option Template :=
+def chooseTemplateIdx (ss : Stylesheet) (d : Doc) (fuel : Nat) (n : Nat) (mode : Option String)
+    (below : Option (Nat × Nat) := none) : Option (Nat × Template) :=
   -- `below = some (p, low)`: only rules imported into the current rule's module, i.e. of import precedence
   -- `low ≤ · < p` (xsl:apply-imports, §5.6)
   let cands : List (Nat × Int × Nat × Template) :=
     (ss.templates.zipIdx).flatMap fun (t, idx) =>
       if t.mode ≠ mode ∨ (match below with | some p => decide (t.prec ≥ p.1 ∨ t.prec < p.2) | none => false) = true then [] else
-      (t.pats.filter fun p => matchesPat d fuel p n).map fun p => (t.prec, t.prio.getD (defaultPrio p), idx, t)
+      (t.pats.filter fun p => matchesPat d fuel p n ss.keys).map fun p => (t.prec, t.prio.getD (defaultPrio p), idx, t)
   -- highest import precedence, then highest priority, then last in the stylesheet
   let best := cands.foldl (fun (acc : Option (Nat × Int × Nat × Template)) x =>
     match acc with
     | none => some x
     | some b =>
       if x.1 > b.1 ∨ (x.1 = b.1 ∧ (x.2.1 > b.2.1 ∨ (x.2.1 = b.2.1 ∧ x.2.2.1 ≥ b.2.2.1))) then some x else some b) none
-  best.map (·.2.2.2)
+  best.map (·.2.2)
+
+/-- the rule chosen for a node (see `chooseTemplateIdx`, which also gives its position in the stylesheet) -/
+def chooseTemplate (ss : Stylesheet) (d : Doc) (fuel : Nat) (n : Nat) (mode : Option String)
+    (below : Option (Nat × Nat) := none) : Option Template :=
+  (chooseTemplateIdx ss d fuel n mode below).map (·.2)
 
 /-- §7.7: does node `n` count for an `xsl:number` instantiated at node `cur`?  (default: same node type and,
 where the type has names, same name) -/
@@ -743,7 +775,8 @@ def numberList (d : Doc) (fuel : Nat) (level : String) (count from_ : List Expr)
       | some m => (cand.dropWhile (· ≠ m)).drop 1
       | none => cand
     let cnt := (lo.filter ok).length
-    if cnt = 0 then [] else [cnt]
+    -- §7.7: "a list of length one containing the number of nodes that match" — also when that number is 0
+    [cnt]
   else if level = "multiple" then
     ((searched.filter ok).reverse).map sibNo
   else
@@ -781,11 +814,11 @@ def lexLe : List SortKey → List KeyVal → List KeyVal → Bool
     | .eq => lexLe ks as bs
   | _, _, _ => true
 
-def keyOf (d : Doc) (fuel : Nat) (k : SortKey) (c : Ctx) : Option KeyVal := do
+def keyOf (d : Doc) (fuel : Nat) (k : SortKey) (c : XCtx) : Option KeyVal := do
   let v ← eval d fuel k.select c
   if k.numeric then some (.n (toNum d v)) else some (.s (toStr d v))
 
-def sortNodes (d : Doc) (fuel : Nat) (keys : List SortKey) (nodes : List Nat) (c : Ctx) :
+def sortNodes (d : Doc) (fuel : Nat) (keys : List SortKey) (nodes : List Nat) (c : XCtx) :
     Option (List Nat) :=
   if keys.isEmpty then some nodes else do
     let n := nodes.length
@@ -794,7 +827,7 @@ def sortNodes (d : Doc) (fuel : Nat) (keys : List SortKey) (nodes : List Nat) (c
       pure (i, ks)
     some ((keyed.mergeSort fun a b => lexLe keys a.2 b.2).map (·.1))
 
-def evalAvt (d : Doc) (fuel : Nat) (parts : List AvtPart) (c : Ctx) : Option String :=
+def evalAvt (d : Doc) (fuel : Nat) (parts : List AvtPart) (c : XCtx) : Option String :=
   parts.foldlM (fun acc p => match p with
     | .lit s => some (acc ++ s)
     | .expr e => (eval d fuel e c).map fun v => acc ++ toStr d v) ""
@@ -842,7 +875,10 @@ def romanAux : Nat → Nat → List (Nat × String) → String
 
 /-- `token` = the alphanumeric format token: "1", "01", "001", "a", "A", "i", "I" -/
 def formatToken (token : String) (n : Nat) : String :=
-  if token = "a" then String.ofList (alphaDigits false (n + 1) n)
+  -- 0 (a count of level="any") is outside the alphabetic / roman sequences, which start at 1; the Recommendation does
+  -- not say what it becomes.  As the processor: roman 0 is written "0", alphabetic 0 is the empty string.
+  if n = 0 ∧ (token = "i" ∨ token = "I") then "0"
+  else if token = "a" then String.ofList (alphaDigits false (n + 1) n)
   else if token = "A" then String.ofList (alphaDigits true (n + 1) n)
   else if token = "i" then romanAux (n + 20) n romanTable
   else if token = "I" then (romanAux (n + 20) n romanTable).toUpper
@@ -862,14 +898,20 @@ def formatRuns : Nat → List Char → List (Bool × String)
     (a, String.ofList run) :: formatRuns f ((c :: cs).dropWhile fun x => isAlnum x == a)
 
 /-- §7.7.1: the n-th number uses the n-th format token (the last one when there are fewer tokens, "1" when there
-is none); a leading / trailing punctuation run is output as prefix / suffix; the separator runs between tokens join
+is none); a leading / trailing punctuation run is output as prefix / suffix (a format that is a single punctuation run is
+both); the separator runs between tokens join
 the numbers (the last separator, or "." when there is none, is reused); an empty list gives the empty string -/
 def formatNumbers (format : String) (ns : List Nat) : String :=
   if ns.isEmpty then "" else
   let runs := formatRuns (format.length + 1) format.toList
   let pre := match runs with | (false, p) :: _ => p | _ => ""
   let body := match runs with | (false, _) :: r => r | r => r
-  let suf := match body.getLast? with | some (false, p) => p | _ => ""
+  -- "if the first token is a non-alphanumeric token the string starts with it; if the last token is a non-alphanumeric
+  -- token the string ends with it": a format that is one punctuation token is both
+  let suf := match body.getLast? with
+    | some (false, p) => p
+    | none => (match runs with | [(false, p)] => p | _ => "")
+    | _ => ""
   let body' := match body.getLast? with | some (false, _) => body.dropLast | _ => body
   let toks := (body'.filter (·.1)).map (·.2)
   let seps := (body'.filter (fun x => !x.1)).map (·.2)
@@ -897,6 +939,15 @@ structure Quirks where
   finish : List REv → List REv := normalize
 
 def Quirks.spec : Quirks := {}
+
+/-- the attribute sets named by a leading `useSets` item of a body, and the body without that item -/
+def leadingSets : List Instr → List String
+  | .useSets ns :: _ => ns
+  | _ => []
+
+def dropSets : List Instr → List Instr
+  | .useSets _ :: rest => rest
+  | body => body
 
 def declaredParams : List Instr → List String
   | .param x _ _ :: rest => x :: declaredParams rest
@@ -928,7 +979,7 @@ def varValue (q : Quirks) (ss : Stylesheet) (d : Doc) (genv : List (String × Va
   | 0, _, _, _ => none
   | f+1, sel, body, c =>
     match sel with
-    | some e => eval d f e c
+    | some e => eval d evalFuel e c.toXCtx
     | none =>
       if body.isEmpty then some (.str "") else do
         let evs ← execSeq q ss d genv f body { c with passed := [] }
@@ -954,33 +1005,30 @@ def execOne (q : Quirks) (ss : Stylesheet) (d : Doc) (genv : List (String × Val
     match i with
     | .text s => some (if s.isEmpty then [] else [.text s])
     | .valueOf e => do
-      let v ← eval d f e c
+      let v ← eval d evalFuel e c.toXCtx
       let s := toStr d v
       some (if s.isEmpty then [] else [.text s])
     | .lre name attrs body => do
       -- §7.1.4: attributes of the used sets first, then the element's own, then xsl:attribute children
-      let (sets, body') := match body with
-        | .useSets ns :: rest => (ns, rest)
-        | _ => ([], body)
-      let fromSets ← useAttrSets q ss d genv f sets c
-      let as ← attrs.mapM fun (an, parts) => (evalAvt d f parts c).map fun v => REv.attr (sheetName an) v
-      let b ← execSeq q ss d genv f body' c0
-      some ([.start (sheetName name)] ++ fromSets ++ as ++ b ++ [.stop (sheetName name)])
+      let fromSets ← useAttrSets q ss d genv f (leadingSets body) c
+      let as ← attrs.mapM fun (an, parts) => (evalAvt d evalFuel parts c.toXCtx).map fun v => REv.attr (lreName ss.nsAlias an) v
+      let b ← execSeq q ss d genv f (dropSets body) c0
+      some ([.start (lreName ss.nsAlias name)] ++ fromSets ++ as ++ b ++ [.stop (lreName ss.nsAlias name)])
     | .number value level count format from_ =>
       match value with
       | some e => do
-        let v ← eval d f e c
+        let v ← eval d evalFuel e c.toXCtx
         match (toNum d v).round with
         | .dy i _ => if i ≥ 1 then some [.text (formatNumber format i.toNat)] else none
         | .nan => none
       | none =>
-        let s := formatNumbers format (numberList d f level count from_ c.node)
+        let s := formatNumbers format (numberList d evalFuel level count from_ c.node)
         some (if s.isEmpty then [] else [.text s])
     | .applyImports =>
       match c.curPrec with
       | none => none
       | some p =>
-        match chooseTemplate ss d f c.node c.mode (some p) with
+        match chooseTemplate ss d evalFuel c.node c.mode (some p) with
         | some t => execSeq q ss d genv f t.body { c with vars := genv, passed := [], curPrec := some (t.prec, t.low) }
         | none =>
           match (d.node c.node).kind with
@@ -991,11 +1039,21 @@ def execOne (q : Quirks) (ss : Stylesheet) (d : Doc) (genv : List (String × Val
       -- on xsl:element / xsl:copy; on xsl:copy only when the current node is an element
       useAttrSets q ss d genv f names c
     | .element nameAvt body => do
-      let name ← evalAvt d f nameAvt c
+      let name ← evalAvt d evalFuel nameAvt c.toXCtx
       let b ← execSeq q ss d genv f body c0
       some ([.start (sheetName name)] ++ b ++ [.stop (sheetName name)])
+    | .elementNs nameAvt nsAvt body => do
+      let name ← evalAvt d evalFuel nameAvt c.toXCtx
+      let ns ← evalAvt d evalFuel nsAvt c.toXCtx
+      let b ← execSeq q ss d genv f body c0
+      some ([.start (expanded ns (localOf name))] ++ b ++ [.stop (expanded ns (localOf name))])
+    | .attributeNs nameAvt nsAvt body => do
+      let name ← evalAvt d evalFuel nameAvt c.toXCtx
+      let ns ← evalAvt d evalFuel nsAvt c.toXCtx
+      let b ← execSeq q ss d genv f body c0
+      some [.attr (expanded ns (localOf name)) (rtfString b)]
     | .attribute nameAvt nsEmpty body => do
-      let name ← evalAvt d f nameAvt c
+      let name ← evalAvt d evalFuel nameAvt c.toXCtx
       let b ← execSeq q ss d genv f body c0
       -- §7.1.3: an explicit namespace attribute decides the namespace (namespace="" = none), else the prefix does
       some [.attr (if nsEmpty then localOf name else sheetName name) (rtfString b)]
@@ -1003,7 +1061,7 @@ def execOne (q : Quirks) (ss : Stylesheet) (d : Doc) (genv : List (String × Val
       let b ← execSeq q ss d genv f body c0
       some [.comment (fixComment (rtfString b))]
     | .pi nameAvt body => do
-      let name ← evalAvt d f nameAvt c
+      let name ← evalAvt d evalFuel nameAvt c.toXCtx
       let b ← execSeq q ss d genv f body c0
       some [.pi name (rtfString b)]
     | .copy body =>
@@ -1020,7 +1078,7 @@ def execOne (q : Quirks) (ss : Stylesheet) (d : Doc) (genv : List (String × Val
       | .comment => some [.comment n.value]
       | .pi => some [.pi n.name n.value]
     | .copyOf e => do
-      let v ← eval d f e c
+      let v ← eval d evalFuel e c.toXCtx
       match v with
       | .ns l => some (l.flatMap (deepCopy d (d.size + 1)))
       | .rtf evs => some evs
@@ -1030,10 +1088,10 @@ def execOne (q : Quirks) (ss : Stylesheet) (d : Doc) (genv : List (String × Val
     | .applyTemplates sel mode sorts params => do
       let nodes ← match sel with
         | none => some (d.children c.node)
-        | some e => match eval d f e c with
+        | some e => match eval d evalFuel e c.toXCtx with
           | some (.ns l) => some l
           | _ => none
-      let sorted ← sortNodes d f sorts nodes c
+      let sorted ← sortNodes d evalFuel sorts nodes c.toXCtx
       let passed ← evalParams q ss d genv f params c
       applyNodes q ss d genv f sorted 1 sorted.length mode passed []
     | .callTemplate name params => do
@@ -1041,13 +1099,13 @@ def execOne (q : Quirks) (ss : Stylesheet) (d : Doc) (genv : List (String × Val
       let passed ← evalParams q ss d genv f params c
       execSeq q ss d genv f t.body { c with vars := genv, passed := passed }
     | .forEach sel sorts body => do
-      let nodes ← match eval d f sel c with
+      let nodes ← match eval d evalFuel sel c.toXCtx with
         | some (.ns l) => some l
         | _ => none
-      let sorted ← sortNodes d f sorts nodes c
+      let sorted ← sortNodes d evalFuel sorts nodes c.toXCtx
       forNodes q ss d genv f sorted 1 sorted.length body c0
     | .if_ test body => do
-      let v ← eval d f test c
+      let v ← eval d evalFuel test c.toXCtx
       if toBool v then execSeq q ss d genv f body c0 else some []
     | .choose whens otherwise => execChoose q ss d genv f whens otherwise c0
     | _ => none
@@ -1083,7 +1141,7 @@ def execChoose (q : Quirks) (ss : Stylesheet) (d : Doc) (genv : List (String × 
   | f+1, w :: ws, otherwise, c =>
     match w with
     | .when test body => do
-      let v ← eval d f test c
+      let v ← eval d evalFuel test c.toXCtx
       if toBool v then execSeq q ss d genv f body c else execChoose q ss d genv f ws otherwise c
     | _ => none
 
@@ -1103,7 +1161,7 @@ def applyNodes (q : Quirks) (ss : Stylesheet) (d : Doc) (genv : List (String × 
   | 0, _, _, _, _, _, _ => none
   | _+1, [], _, _, _, _, _ => some []
   | f+1, i :: rest, k, n, mode, passed, act =>
-    match chooseTemplate ss d f i mode with
+    match chooseTemplate ss d evalFuel i mode with
     | some t => do
       let leaked := if q.paramLeak then passed.filter (fun p => act.contains p.1) else []
       let a ← execSeq q ss d genv f t.body
@@ -1116,7 +1174,7 @@ def applyNodes (q : Quirks) (ss : Stylesheet) (d : Doc) (genv : List (String × 
       let a ← (match (d.node i).kind with
         | .root | .elem =>
           applyNodes q ss d genv f (d.children i) 1 (d.children i).length mode [] []
-        | .text | .attr => some [.text (d.node i).value]
+        | .text | .attr => some (if (d.node i).value.isEmpty then [] else [.text (d.node i).value])
         | _ => some [])
       let b ← applyNodes q ss d genv f rest (k + 1) n mode passed act
       some (a ++ b)
@@ -1137,11 +1195,20 @@ def globalsEnv (q : Quirks) (ss : Stylesheet) (d : Doc) : Nat → List Instr →
 
 def isWsOnly (s : String) : Bool := !s.isEmpty && s.toList.all isWs
 
+/-- §3.4, third bullet: the value of the nearest `xml:space` attribute on an ancestor element (`none` = no ancestor has one) -/
+def xmlSpaceOf (d : Doc) (i : Nat) : Option String :=
+  ((d.ancestors i).findSome? fun a =>
+    ((d.attrs a).find? fun x => (d.node x).name = "xml:space").map fun x => (d.node x).value)
+
 /-- is node `i` a whitespace-only text node whose parent element is named by the strip list? -/
 def stripped (names : List String) (d : Doc) (i : Nat) : Bool :=
   let n := d.node i
   let p := d.node n.parent
-  decide (n.kind = .text) && isWsOnly n.value && decide (p.kind = .elem) && (names.contains "*" || names.contains p.name)
+  decide (n.kind = .text) && isWsOnly n.value && decide (p.kind = .elem) &&
+    (names.contains "*" || names.any fun nm =>
+        -- a NameTest: expanded with the stylesheet's declarations, no default namespace for an unprefixed name (§3.4, XPath §2.3)
+        localOf nm == localOf p.name && (stylesheetNs.lookup (prefixOf nm)).getD "" == p.uri) &&
+      (xmlSpaceOf d i != some "preserve")
 
 /-- the source tree after stripping: the listed nodes are removed, the others keep their order -/
 def stripDoc (names : List String) (d : Doc) : Doc :=
